@@ -811,10 +811,10 @@ def run(tier, seed):
     import concurrent.futures as cf
     pool = cf.ThreadPoolExecutor(max_workers=6)
     j1 = McJob(pool, "ClfConnect.tla", "MC_ClfConnect.cfg" if quick else "MC_ClfConnect_thorough.cfg", W_CONNECT,
-               "MC_ClfConnect_reach.cfg", 400 if quick else 1500)
+               "MC_ClfConnect_reach.cfg", 1500 if quick else 2400)
     j2 = McJob(pool, "ClfSense.tla", "MC_ClfSense.cfg" if quick else "MC_ClfSense_thorough.cfg", W_SENSE,
-               "MC_ClfSense_reach.cfg", 300 if quick else 900, workers=8)
-    j3 = McJob(pool, "ClfSense.tla", "MC_ClfSense_pause.cfg", None, None, 300, workers=4)
+               "MC_ClfSense_reach.cfg", 1200 if quick else 1800, workers=8)
+    j3 = McJob(pool, "ClfSense.tla", "MC_ClfSense_pause.cfg", None, None, 1200, workers=4)
     full = list(grid(kmax, tmax))
 
     # 2. the grid on the real frontend
@@ -901,7 +901,7 @@ def run(tier, seed):
     if self_t[1]["ev"] == good["ev"]:
         del self_t[1]["ev"][0]
     verdicts, st = tlc.validate_traces("Trace_ClfConnect.tla", "Trace_ClfConnect.cfg", PID + "/trc", traces + self_t,
-                                       shards=16, timeout=900 if quick else 3000)
+                                       shards=16, timeout=1800 if quick else 3000)
     for t in self_t:
         if verdicts[t["id"]][0] == "ACCEPT":
             raise tlc.TLCError("binding vacuous: %s accepted" % t["id"])
@@ -953,7 +953,7 @@ def run(tier, seed):
         bad2["ev"][0]["a"] = "Bogus"
     bad2["id"] = "selftest-dropped"
     sverd, sst = tlc.validate_traces("Trace_ClfSense.tla", "Trace_ClfSense.cfg", PID + "/trs", straces + [bad, bad2],
-                                     shards=8, timeout=600)
+                                     shards=8, timeout=1500)
     for t in (bad, bad2):
         if sverd[t["id"]][0] == "ACCEPT":
             raise tlc.TLCError("binding vacuous: sense %s accepted" % t["id"])
